@@ -78,3 +78,24 @@ func TestC10RemapOntoUnifiedDeviceRecordsOwningGPU(t *testing.T) {
 		}
 	}
 }
+
+// KNOWN FINDING R10.9: re-homing a page never returns its old physical page. One live page
+// bounced between two GPUs exhausts both memories.
+func TestC10RemapReleasesTheOldPhysicalPage(t *testing.T) {
+	pt := vm.NewPageTable(12)
+	a := NewMemoryAllocator(pt, 12).(*memoryAllocatorImpl)
+	for id := 1; id <= 2; id++ {
+		dev := &Device{ID: id, Type: DeviceTypeGPU, MemState: NewDeviceMemoryState(12)}
+		dev.SetTotalMemSize(16 * 4096)
+		a.RegisterDevice(dev)
+	}
+	ptr := a.Allocate(1, 4096, 1)
+	defer func() {
+		if r := recover(); r != nil {
+			t.Errorf("one live page, 2 x 16 physical pages, and the driver panicked: %v", r)
+		}
+	}()
+	for i := 0; i < 40; i++ {
+		a.Remap(1, ptr, 4096, 1+(i+1)%2)
+	}
+}
